@@ -16,6 +16,7 @@ import Poulpy.Lemmas.EpNorm
 import Poulpy.Lemmas.GadgetCore
 import Poulpy.Lemmas.ValBridge
 import Poulpy.Lemmas.AccAdd
+import Poulpy.Lemmas.EpTotal
 import Poulpy.Lemmas.MulNorm
 
 /-!
@@ -44,7 +45,7 @@ Layers
 -/
 
 namespace C04
-open Hal Core
+open Hal Core KsDec
 
 /-- **Layer A.**  Phase of a vector-matrix product (`limb_offset = 0`, result of `S` limbs ×
 `cols` columns, `cols = rank + 1 = sk.length + 1`): limb `l` of the phase of `a · M` is
@@ -755,12 +756,12 @@ example (s : List Poly) :
 
 /-! ## Composed statement: the result ciphertext decrypts to `m2 · phase(a)` plus explicit terms, one value domain -/
 
-/-- **`ep_decrypts`** — `glwe_external_product` (every `dsize ≥ 1`, every rank, same or different radices), `ep_executed_identity` and
+/-- **`ep_decrypts_modulo_norm`** — `glwe_external_product` (every `dsize ≥ 1`, every rank, same or different radices), `ep_executed_identity` and
 `ep_result_phase_modulo_norm` composed in `R N = ℤ[X]/(X^N+1)` with `β = 2^{base2k(ggsw)}` (`Lemmas/ValBridge.lean`): `A · phase(result)` equals
 `B · (m2·Σ_i σ_i·usedVal(a_i) + Σ_i(Σ_r digit·E − dropped − β^S·head))` plus the normalisation error `E₀ + Σ s_i E_{i+1}`, where `(A, B, En)` is the
 C08 kernel's value relation on each accumulator column (`hK`; `ep_result_coeff_same_radix` gives it outright per coefficient for equal radices).
 Each cell of GGSW × GGLWE / GGSW × GGSW is this statement. -/
-theorem ep_decrypts {N : Nat} (big128 : Bool) (rb rs ab : Nat) (a aConv res : List Col) (g : EpGGSW) (sk : List Poly)
+theorem ep_decrypts_modulo_norm {N : Nat} (big128 : Bool) (rb rs ab : Nat) (a aConv res : List Col) (g : EpGGSW) (sk : List Poly)
     (hg : (g.n == N && g.wf && shapeOk N (g.rank + 1) (a.getD 0 []).length a) = true)
     (hc : epConvert N a ab g = some aConv)
     (hok : glweExternalProduct big128 N rb rs a ab g = .ok res)
@@ -831,7 +832,7 @@ example (m2 : Ks.R 1) (σ : ℕ → Ks.R 1) :
               - ((2 : Ks.R 1) ^ staleG.base2k) ^ staleG.size * Gadget.head ((2 : Ks.R 1) ^ staleG.base2k) staleG.dsize staleG.dnum (([[[1], [2], [3]], [[0], [1], [0]]] : List Col).getD 0 []).length
                   (Ks.inLimb 1 (mkBuf staleG.n (staleG.rank + 1) (([[[1], [2], [3]], [[0], [1], [0]]] : List Col).getD 0 []).length [[[1], [2], [3]], [[0], [1], [0]]]) i) (Ks.keyPhase 1 [[1]] staleG.toPMat i)))
         + Ks.ι 1 (C02L.errTo (min staleG.rank ([[1]] : List Poly).length) [[1]] (fun _ => [0])) :=
-  ep_decrypts (N := 1) false 4 4 4 [[[1], [2], [3]], [[0], [1], [0]]] [[[1], [2], [3]], [[0], [1], [0]]]
+  ep_decrypts_modulo_norm (N := 1) false 4 4 4 [[[1], [2], [3]], [[0], [1], [0]]] [[[1], [2], [3]], [[0], [1], [0]]]
     [[[3], [0], [0], [0]], [[0], [0], [0], [0]]] staleG [[1]] (by decide) (by decide) (by decide) 1 1 (fun _ => [0]) (fun _ => rfl)
     (by decide) (by decide)
     (by
@@ -851,13 +852,13 @@ example (m2 : Ks.R 1) (σ : ℕ → Ks.R 1) :
 instance (c : Col) : Decidable (C02L.ColSmall c) := by unfold C02L.ColSmall C02L.PolySmall; infer_instance
 instance (N : Nat) (c : Col) : Decidable (C02L.LimbsN N c) := by unfold C02L.LimbsN; infer_instance
 
-/-- **`cmux_decrypts`** — `Cmux::cmux` on the i64 accumulator (FFT64 back ends), every `dsize ≥ 1`, every rank: one composed statement.  With
+/-- **`cmux_decrypts_modulo_norm`** — `Cmux::cmux` on the i64 accumulator (FFT64 back ends), every `dsize ≥ 1`, every rank: one composed statement.  With
 the no-overflow lemma `Core.bigAddSmallAssign_exact` (2^62 head-room on the product and on `f`, `Lemmas/AccAdd.lean`) the accumulator is the exact
 limb-wise sum `P + fit(f)`, the phase value is additive (`ι_valP_phase_add`), `P = epInternal (t − f)` has the value of `ep_executed_identity`, and the
 final normalisation contributes the kernel relation `(A, B, En)`:
 `A·phase(res) = B·(m2·Σ_i σ_i·usedVal((t−f)_i) + Σ_i(Σ_r digit·E − dropped − β^S·head) + phase(f at S limbs)) + (E₀ + Σ s_i E_{i+1})` —
 `m2 = 0` gives `f`, `m2 = 1` gives `t` up to the gadget's dropped limbs (`cmux_selects` is the algebraic form). -/
-theorem cmux_decrypts {N : Nat} (rb rs : Nat) (t f res : List Col) (g : EpGGSW) (res0 tmp0 : List Col) (sk : List Poly)
+theorem cmux_decrypts_modulo_norm {N : Nat} (rb rs : Nat) (t f res : List Col) (g : EpGGSW) (res0 tmp0 : List Col) (sk : List Poly)
     (hg : (g.n == N && g.wf && rb == g.base2k && shapeOk N (g.rank + 1) (t.getD 0 []).length t
        && shapeOk N (g.rank + 1) (f.getD 0 []).length f) = true)
     (hok : cmux false N rb rs t f g res0 tmp0 = .ok res)
@@ -978,7 +979,7 @@ example (m2 : Ks.R 1) (σ : ℕ → Ks.R 1) :
           + Ks.ι 1 (C02L.valP staleG.base2k 1 (Core.Ops.phase [[1]] (Ks.mkCt staleG.base2k 1
               ((List.range (staleG.rank + 1)).map (fun j => C02L.fit 1 staleG.size (([[[0], [0], [1]], [[0], [0], [0]]] : List Col).getD j [])))))))
         + Ks.ι 1 (C02L.errTo (min staleG.rank ([[1]] : List Poly).length) [[1]] (fun _ => [0])) :=
-  cmux_decrypts (N := 1) 4 3 ([[[1], [2], [3]], [[0], [1], [0]]] : List Col) ([[[0], [0], [1]], [[0], [0], [0]]] : List Col) [[[2], [0], [1]], [[0], [0], [0]]] staleG (zeroCols 1 2 4) (zeroCols 1 2 4) [[1]]
+  cmux_decrypts_modulo_norm (N := 1) 4 3 ([[[1], [2], [3]], [[0], [1], [0]]] : List Col) ([[[0], [0], [1]], [[0], [0], [0]]] : List Col) [[[2], [0], [1]], [[0], [0], [0]]] staleG (zeroCols 1 2 4) (zeroCols 1 2 4) [[1]]
     (by decide) (by decide) 16 1 (fun _ => [0]) (fun _ => rfl)
     (by decide) (by decide) (by decide) (by decide) (by decide)
     (by
@@ -995,4 +996,71 @@ example (m2 : Ks.R 1) (σ : ℕ → Ks.R 1) :
                     - m2 * σ i * ((2 : Ks.R 1) ^ staleG.base2k) ^ (staleG.size - (r + 1) * staleG.dsize))
     (by decide) (by decide) rfl (by decide) (by decide) (by decide) (Ks.entry_length staleG.toPMat 1 rfl (by decide)) (by decide)
     (by intro i _ r _; exact (add_sub_cancel _ _).symm)
+/-! ## Unconditional composed statements: every kernel hypothesis discharged by C08's total value theorems -/
+
+/-- **`ep_decrypts`** — `glwe_external_product`, END TO END on the executed model, every `dsize ≥ 1`, every rank, ANY pair of radices `1..62`,
+`i64` (FFT64) and `i128` (NTT120) accumulators.  The only analytic hypothesis is the accumulator head-room `|acc| ≤ H`, `H + 8 ≤ 2^62` resp. `2^126`
+(derived from digit bounds by `ep_headroom`).  The call returns a well-formed ciphertext with digits `≤ 2^rb − 1`, and in `ℤ[X]/(X^N+1)`
+`2^(bg·S)·phase(res) = 2^(rb·rs)·(m2·Σ_i σ_i·usedVal(a_i) + Σ_i(Σ_r digit·E − dropped − β^S·head)) + En + 2^(rb·rs+bg·S)·Q` with
+`‖En‖_∞ ≤ (1 + Σ‖s_i‖₁)·normTol`: at most one unit of the result's last limb per column, `0` (exact) when `bg·S ≤ rb·rs`
+(`C08.normalize_value_offset0`, `C08.big_normalize128_value_offset0` through `Core.norm_total_rows`). -/
+theorem ep_decrypts {N : Nat} (big128 : Bool) (rb rs ab : Nat) (a aConv : List Col) (g : EpGGSW) (sk : List Poly) (H : Int)
+    (hg : (g.n == N && g.wf && shapeOk N (g.rank + 1) (a.getD 0 []).length a) = true)
+    (hc : epConvert N a ab g = some aConv)
+    (hrb1 : 1 ≤ rb) (hrb : rb ≤ 62) (hgb1 : 1 ≤ g.base2k) (hgb : g.base2k ≤ 62)
+    (hH0 : 0 ≤ H) (hH : H + 8 ≤ 2 ^ (bitsOf big128 - 2))
+    (hacc : ∀ c ∈ epInternal aConv g (zeroCols N (g.rank + 1) g.size) (zeroCols N (g.rank + 1) g.size), ∀ l ∈ c, ∀ x ∈ l, |x| ≤ H)
+    (m2 : Ks.R N) (σ : ℕ → Ks.R N) (E : ℕ → ℕ → Ks.R N)
+    (hd : 1 ≤ g.dsize) (hN : 0 < N) (hn : g.n = N)
+    (haC : shapeOk g.n (g.rank + 1) (aConv.getD 0 []).length aConv = true)
+    (hM : ∀ j q, (g.toPMat.entry j q).length = N) (hS : g.dnum * g.dsize ≤ g.size)
+    (hkey : ∀ i, i < g.rank + 1 → ∀ r, r < g.dnum →
+      Gadget.val ((2 : Ks.R N) ^ g.base2k) g.size (Ks.keyPhase N sk g.toPMat i r)
+        = m2 * σ i * ((2 : Ks.R N) ^ g.base2k) ^ (g.size - (r + 1) * g.dsize) + E i r) :
+    ∃ res, glweExternalProduct big128 N rb rs a ab g = .ok res ∧ C02L.GWF N (Ks.mkCt rb N res) ∧
+      (∀ c ∈ res, ∀ l ∈ c, ∀ x ∈ l, |x| ≤ 2 ^ rb - 1) ∧
+      ∃ En Q : Poly, En.length = N ∧ Q.length = N ∧
+        normInf En ≤ (1 + C02L.snorm (min g.rank sk.length) sk) * C02.normTol (rb * rs) (g.base2k * g.size) ∧
+        (2 : Ks.R N) ^ (g.base2k * g.size) * Ks.ι N (C02L.valP rb N (Core.Ops.phase sk (Ks.mkCt rb N res)))
+          = (2 : Ks.R N) ^ (rb * rs) * (m2 * ∑ i ∈ Finset.range (g.rank + 1),
+              σ i * Gadget.usedVal ((2 : Ks.R N) ^ g.base2k) g.size g.dsize g.dnum (aConv.getD 0 []).length
+                (Ks.inLimb N (mkBuf g.n (g.rank + 1) (aConv.getD 0 []).length aConv) i)
+            + ∑ i ∈ Finset.range (g.rank + 1),
+              (∑ r ∈ Finset.range g.dnum,
+                  Gadget.digit ((2 : Ks.R N) ^ g.base2k) g.dsize g.dnum (aConv.getD 0 []).length
+                    (Ks.inLimb N (mkBuf g.n (g.rank + 1) (aConv.getD 0 []).length aConv) i) r * E i r
+                - Gadget.dropped ((2 : Ks.R N) ^ g.base2k) g.size g.dsize g.dnum (aConv.getD 0 []).length
+                    (Ks.inLimb N (mkBuf g.n (g.rank + 1) (aConv.getD 0 []).length aConv) i) (Ks.keyPhase N sk g.toPMat i)
+                - ((2 : Ks.R N) ^ g.base2k) ^ g.size * Gadget.head ((2 : Ks.R N) ^ g.base2k) g.dsize g.dnum (aConv.getD 0 []).length
+                    (Ks.inLimb N (mkBuf g.n (g.rank + 1) (aConv.getD 0 []).length aConv) i) (Ks.keyPhase N sk g.toPMat i)))
+            + Ks.ι N En + (2 : Ks.R N) ^ (rb * rs + g.base2k * g.size) * Ks.ι N Q := by
+  have hz : shapeOk g.n (g.rank + 1) g.size (zeroCols N (g.rank + 1) g.size) = true := by rw [hn]; exact zeroCols_shape _ _ _
+  have hwf := epInternal_wf N aConv g _ _ hd hn haC hz hz hM
+  have hlen := epInternal_length aConv g (zeroCols N (g.rank + 1) g.size) (zeroCols N (g.rank + 1) g.size)
+  have hne : epInternal aConv g (zeroCols N (g.rank + 1) g.size) (zeroCols N (g.rank + 1) g.size) ≠ [] := by
+    intro h; rw [h] at hlen; simp at hlen
+  obtain ⟨cs, h1, h2, h3, h4, h5⟩ := norm_total_rows big128 N rb rs g.base2k g.size 0 H _ hN hrb1 hrb hgb1 hgb hH0 hH hne hwf hacc
+  have hcsne : cs ≠ [] := by
+    intro h; rw [h, hlen] at h2; simp at h2
+  refine ⟨cs, ?_, (gwf_mk (N := N) rb rs cs hcsne h3).1, h4, ?_⟩
+  · rw [glweExternalProduct_accumulator big128 N rb rs a ab g aConv hg hc]
+    show optOutcome ((epInternal aConv g _ _).mapM (fun c => bigNormalizeOff big128 N rb rs 0 c g.base2k)) = _
+    rw [h1]; rfl
+  · obtain ⟨En, Q, hE, hQ, hnm, he⟩ := h5 sk
+    rw [hlen, normTolOff_zero] at hnm
+    refine ⟨En, Q, hE, hQ, by simpa using hnm, ?_⟩
+    have h3' := ep_executed_identity N sk aConv g _ _ ((2 : Ks.R N) ^ g.base2k) m2 σ E hd hN hn haC hz hz hM hS hkey
+    rw [h3'] at he
+    simpa using he
+
+example (m2 : Ks.R 1) (σ : ℕ → Ks.R 1) :
+    ∃ res, glweExternalProduct false 1 4 4 [[[1], [2], [3]], [[0], [1], [0]]] 4 staleG = .ok res ∧ C02L.GWF 1 (Ks.mkCt 4 1 res) := by
+  obtain ⟨res, h1, h2, _⟩ := ep_decrypts (N := 1) false 4 4 4 [[[1], [2], [3]], [[0], [1], [0]]] [[[1], [2], [3]], [[0], [1], [0]]] staleG [[1]]
+    (2 ^ 61) (by decide) (by decide) (by decide) (by decide) (by decide) (by decide) (by decide) (by decide) (by decide)
+    m2 σ (fun i r => Gadget.val ((2 : Ks.R 1) ^ staleG.base2k) staleG.size (Ks.keyPhase 1 [[1]] staleG.toPMat i r)
+                    - m2 * σ i * ((2 : Ks.R 1) ^ staleG.base2k) ^ (staleG.size - (r + 1) * staleG.dsize))
+    (by decide) (by decide) rfl (by decide) (Ks.entry_length staleG.toPMat 1 rfl (by decide)) (by decide)
+    (by intro i _ r _; exact (add_sub_cancel _ _).symm)
+  exact ⟨res, h1, h2⟩
+
 end C04
